@@ -176,9 +176,18 @@ impl Receiver {
             fdt.1.update_expired_state(now);
         });
 
+        let object_timeout = self.config.object_timeout;
+        let instant = Instant::now();
         self.fdt_receivers.retain(|_, fdt| {
             let state = fdt.state();
-            state == fdtreceiver::FDTState::Complete || state == fdtreceiver::FDTState::Receiving
+            if state == fdtreceiver::FDTState::Receiving {
+                // An FDT that is never fully received expires like any other object
+                return match (object_timeout, fdt.last_activity_duration_since(instant)) {
+                    (Some(timeout), Some(duration)) => duration.le(&timeout),
+                    _ => true,
+                };
+            }
+            state == fdtreceiver::FDTState::Complete
         });
     }
 
